@@ -21,7 +21,7 @@ def jobs(tier):
         J.append(Job('cm-unpack-%d'%p,'C16/cm_unpack.c',defs=['-DPKT=%d'%p],unwind=8,unwindset=[('_v_readstring',None,p-7),('_vorbis_unpack_comment',None,max(p-15,0)//4+2),('harness',None,p//4+2),('vorbis_comment_clear',None,max(p-15,0)//4+2)],
             witnesses=['accepted','rejected']+(['accepted with a non-empty comment'] if p>=21 else []),models=['M-bitsrc (models/bitsrc.c: libogg read-side position accounting, arbitrary data)'],checks=['sovf'],
             functions=['vorbis_synthesis_headerin','_vorbis_unpack_comment','_v_readstring','vorbis_comment_clear'],
-            bounds='arbitrary packet of 0..%d bytes'%p, weight=3, mem_gb=(12 if p<23 else 40)))
+            bounds='arbitrary packet of 0..%d bytes'%p, weight=3, mem_gb=(12 if p<23 else 40), mem_est=(4 if p<23 else 18)))
     qs=[(2,3,2)] if tier=='quick' else [(2,3,2),(3,4,3),(3,3,1)]
     for n,ml,tl in qs:
         J.append(Job('cm-query-%d-%d-%d'%(n,ml,tl),'C16/cm_query.c',defs=['-DNCQ=%d'%n,'-DMLQ=%d'%ml,'-DTLQ=%d'%tl],unwind=max(ml,tl)+4,
